@@ -1,4 +1,4 @@
-import SignalGen.Generated
+import SignalGen.Gen.Scalar
 /-!
 # Regenerated tie, C16: `Scale[T](high, low)` as the Go source defines it now equals the model's `scale`, for every
 integer type and every pair of `BitDepth` values (structural proof; the table `scale4` of `Eq/BitDepth.lean` is the
